@@ -10,6 +10,7 @@ import (
 	"strconv"
 	"strings"
 	"sync"
+	"sync/atomic"
 	"testing"
 	"time"
 
@@ -42,7 +43,8 @@ import (
 //
 // Case layout: U = [active validators, standby generators, batch size - validators, history length, path (0 = process,
 // 1 = Validate + processValidated)], S = hostile blocks separated by "|", each a ";"-separated list of operations
-// field=expression (see applyOps). An empty segment is an honest block.
+// field=expression (see applyOps). An empty segment is an honest block. Operations pre=... are not part of the block:
+// they put the NODE into a state before the segment's block is built and offered (see signedPre).
 
 const signedTarget = "Executer.process.signed"
 
@@ -80,7 +82,7 @@ func signedCase(cfg signedCfg, ops string, gen string) *Case {
 	n := 0
 	for _, seg := range strings.Split(ops, "|") {
 		for _, o := range strings.Split(seg, ";") {
-			if o != "" {
+			if o != "" && !strings.HasPrefix(o, "pre=") {
 				n++
 			}
 		}
@@ -456,6 +458,7 @@ func (x *sctx) specOf(ops []string) (node.Spec, []string) {
 					s.ExtraAssets = append(s.ExtraAssets, &blockchain.BlockAsset{Module: m, Data: patternBytes(l)})
 				}
 			}
+		case "pre": // node state, executed by runSigned before the block is built
 		case "sib":
 			v, err := strconv.Atoi(e)
 			if err != nil || v < 0 {
@@ -647,6 +650,74 @@ func mhgClass(mhg, h, last uint32) string {
 	return "<previous"
 }
 
+// Node states with respect to the reception time fork choice keeps for the tip (Executer.lastBlockReceived): it is nil from
+// the start of the process until a block has been received IN ORDER through Executer.process; blocks applied by the sync
+// paths (Validate + processValidated) never set it. A node that was just started or restarted, or has only synced so far,
+// is in that state when the next gossiped block - in particular a competing sibling of its tip - arrives.
+type signedRecv struct {
+	set   bool   // the Executer holds a reception time
+	state string // label
+}
+
+// signedNoRecvSiblings counts siblings of the tip that reached fork choice (Executer.process) on a node without a reception
+// time on record (generator guard of the enumerating test).
+var signedNoRecvSiblings atomic.Int64
+
+// signedPre executes one node-state operation in front of a segment's block:
+//
+//	pre=asis       nothing: the node stays as it was opened on the stored history (new Executer on an existing database,
+//	               no block processed since it started); for a sibling it only says "do not set a reception time by hook"
+//	pre=restart    the node is restarted: Chain, Executer, connection and database handle are dropped and opened again on the
+//	               same database and application state (node.Restart, as the restart steps of C04/C05 do)
+//	pre=sync:K     K honest blocks are applied the way the sync paths apply downloaded blocks (Validate + processValidated)
+//	pre=recv:K     K honest blocks are received in order through Executer.process (sets the reception time)
+func signedPre(n *node.Node, p string, rs *signedRecv, si int) {
+	kind, arg, _ := strings.Cut(p, ":")
+	switch kind {
+	case "asis":
+		return
+	case "restart":
+		if err := n.Restart(); err != nil {
+			panic(fmt.Sprintf("harness: restart of the node before segment %d failed: %v", si, err))
+		}
+		rs.set, rs.state = false, "none-since-restart"
+		return
+	case "sync", "recv":
+		k, err := strconv.Atoi(arg)
+		if err != nil || k < 1 || k > 8 {
+			panic("harness: pre=" + p)
+		}
+		for j := 0; j < k; j++ {
+			b, _, err := buildValidSuccessor(n, node.Spec{Script: node.Script{Salt: uint32(50 + j), EvBefore: j % 2}})
+			if err != nil {
+				panic(fmt.Sprintf("harness: cannot build honest block %d of pre=%s (segment %d): %v", j, p, si, err))
+			}
+			m, err := blockchain.NewBlock(b.Encode())
+			if err != nil {
+				panic(fmt.Sprintf("harness: honest block of pre=%s does not decode: %v", p, err))
+			}
+			if kind == "recv" {
+				err = n.Exec.VerifProcess(m, "peer")
+			} else if err = m.Validate(); err == nil {
+				err = n.Exec.VerifProcessValidated(m, false, false)
+			}
+			if err != nil || !bytes.Equal(n.Tip().Header.ID, b.Header.ID) {
+				panic(fmt.Sprintf("harness: honest block %d of pre=%s (segment %d) not accepted: %v", j, p, si, err))
+			}
+		}
+		switch {
+		case kind == "recv":
+			rs.set, rs.state = true, "received-in-order"
+		case rs.set:
+			rs.state = "received-earlier,tip-synced"
+		default:
+			rs.state = "none-synced-only"
+		}
+		return
+	}
+	panic("harness: unknown node state operation pre=" + p)
+}
+
 // runSigned executes one case (see the head of the file).
 func runSigned(c *Case) outcome {
 	cfg := signedCfgOf(c)
@@ -663,11 +734,22 @@ func runSigned(c *Case) outcome {
 	}()
 	var classes []string
 	passed := false
+	// the node was just opened on the stored history: a new Executer on an existing database that has not processed anything
+	rs := &signedRecv{state: ifs(cfg.hist == 0, "none-since-start(genesis-only)", "none-since-start")}
 	for si, seg := range strings.Split(c.S, "|") {
 		var ops []string
+		hostile, pre := 0, 0
 		for _, o := range strings.Split(seg, ";") {
-			if o != "" {
-				ops = append(ops, o)
+			if o == "" {
+				continue
+			}
+			ops = append(ops, o)
+			if strings.HasPrefix(o, "pre=") {
+				// node state first: the block of this segment is built on, and offered to, the node in that state
+				signedPre(n, o[4:], rs, si)
+				pre++
+			} else {
+				hostile++
 			}
 		}
 		x := &sctx{n: n}
@@ -675,10 +757,15 @@ func runSigned(c *Case) outcome {
 		var b *blockchain.Block
 		var owner *node.Key
 		if x.sib {
-			// a valid sibling of the tip by the owner of the current wall-clock slot, while the tip counts as received outside its
-			// own slot: fork choice answers "tie break" (delete the tip, apply the sibling, on failure re-apply the old tip)
-			now := time.Now()
-			n.Exec.VerifSetLastBlockReceived(&now)
+			// a valid sibling of the tip by the owner of the current wall-clock slot. Without a node-state operation the tip is made to
+			// count as received outside its own slot (hook): fork choice answers "tie break" (delete the tip, apply the sibling, on
+			// failure re-apply the old tip). With one, the reception time is whatever that state left behind - none at all after a
+			// (re)start or on a node that only synced.
+			if pre == 0 {
+				now := time.Now()
+				n.Exec.VerifSetLastBlockReceived(&now)
+				rs.set, rs.state = true, "hook:tip-received-outside-its-slot"
+			}
 			sb, ok := n.BuildTieBreakSibling(x.sibSalt)
 			if !ok {
 				classes = append(classes, "not-applicable")
@@ -720,6 +807,16 @@ func runSigned(c *Case) outcome {
 		}
 		if x.sib {
 			evid.R.Label("signed-sibling:"+ifs(path == 0, "offered-to-fork-choice", "processValidated-only"), 1)
+			if path == 0 {
+				evid.R.Label("signed-sibling-node-state:"+rs.state, 1)
+				if !rs.set && siblingShape {
+					signedNoRecvSiblings.Add(1)
+				}
+			}
+		}
+		stateBefore := rs.state
+		if len(ops) > 0 {
+			evid.R.Label("signed-node-state:"+rs.state, 1)
 		}
 		reverts := n.ABI.App.Calls["Revert"]
 		if len(ops) > 0 {
@@ -774,11 +871,18 @@ func runSigned(c *Case) outcome {
 				evid.R.Label("signed-other-error:"+firstN(perr.Error(), 60), 1)
 			}
 		}
-		if len(ops) == 0 && cl != "accepted" {
-			panic(fmt.Sprintf("harness: honest block (segment %d) not accepted: %s err=%v", si, cl, perr))
+		if hostile == 0 && cl != "accepted" {
+			panic(fmt.Sprintf("harness: honest block (segment %d, node state %s) not accepted: %s err=%v", si, stateBefore, cl, perr))
 		}
 		if len(ops) > 0 {
 			evid.R.Label("signed-result:"+cl, 1)
+		}
+		if !rs.set && x.sib && path == 0 {
+			evid.R.Label("signed-sibling-without-reception-time:"+cl, 1)
+		}
+		// process records the reception time for a block it takes as the next one (before validating it) and for a tie break
+		if path == 0 && (successorShape || (siblingShape && cl != "discarded")) {
+			rs.set, rs.state = true, "received-in-order"
 		}
 		classes = append(classes, cl)
 		if strings.HasPrefix(cl, "accepted") && len(m.Header.StateRoot) == 0 {
@@ -929,6 +1033,17 @@ func signedCatalogue() []string {
 	add("sib=1", "sib=1;mhg=h+1", "sib=1;mhg=4294967295", "sib=1;mhg=h", "sib=1;imp=1", "sib=2;stroot=flip", "sib=2;vh=flip", "sib=3;evroot=len:31",
 		"sib=1;agg=valid:cert+1", "sib=1;agg.h=pc;agg.bits=len:2;agg.sig=inf", "sib=1;mhp=cur+1", "sib=1;ts=slot+5000", "sib=1;ts=slot-10000", "sib=1;sign=other",
 		"sib=1;mhg=h+1;stroot=flip", "sib=2;stroot=flip|mhg=h+1", "sib=2;vh=len:33|", "sib=1;mhg=0")
+	// NODE STATES WITHOUT A RECEPTION TIME FOR THE TIP (Executer.lastBlockReceived == nil): a node that was just started on an
+	// existing database (pre=asis: the state every case starts in), restarted after it had received blocks, or that applied its
+	// history only through the sync path - immediately before the sibling / hostile block arrives. Contrast: a block received
+	// in order just now (its slot is long past: the tie break happens without any hook), and a reception time that belongs to an
+	// older block while the tip itself was synced.
+	add("pre=asis;sib=1", "pre=restart;sib=1", "pre=sync:1;sib=1", "pre=sync:2;sib=2", "pre=sync:3;sib=1", "pre=recv:1;pre=restart;sib=1", "pre=recv:2;pre=restart;sib=2",
+		"pre=recv:1;pre=sync:1;sib=1", "pre=recv:1;sib=1", "pre=recv:2;sib=1;mhg=h+1", "pre=restart;sib=1;mhg=h+1", "pre=asis;sib=2;stroot=flip", "pre=restart;sib=1;sign=other",
+		"pre=sync:1;sib=1;ts=slot+5000", "pre=restart;sib=1;imp=1", "pre=sync:1;sib=3;mhg=4294967295",
+		"pre=restart", "pre=restart;mhg=h+1", "pre=sync:2;mhg=h+1", "pre=recv:1;pre=restart;mhg=4294967295", "pre=restart;agg=valid:cert+1", "pre=sync:1;mhg=h;imp=1",
+		"pre=asis;mhg=h+1|pre=restart;mhg=h+1", "mhg=h+1|pre=restart;sib=1", "|pre=restart;sib=1", "sib=2;stroot=flip|pre=restart;sib=1", "pre=restart;sib=2;vh=flip|pre=restart|",
+		"pre=sync:1|pre=restart;sib=1", "pre=sync:1|pre=sync:1;sib=1")
 	return out
 }
 
@@ -939,6 +1054,10 @@ func signedConfigs() []signedCfg {
 		{nVal: 3, standby: 1, hist: 10},
 		{nVal: 3, standby: 1, hist: 11},
 		{nVal: 4, hist: 13, change: 1}, // a validator left, a new one joined (minimum active height > 0), unequal weights
+	}
+	if !evid.Thorough() {
+		// quick tier: genesis only / the very first block after genesis, for the node-state entries (pre=) only
+		cfgs = append(cfgs, signedCfg{nVal: 4, hist: 0}, signedCfg{nVal: 4, hist: 1})
 	}
 	if evid.Thorough() {
 		cfgs = append(cfgs, signedCfg{nVal: 4, hist: 0}, signedCfg{nVal: 4, hist: 1}, signedCfg{nVal: 2, hist: 5}, signedCfg{nVal: 5, extra: 2, hist: 16},
@@ -982,6 +1101,7 @@ func TestSignedBlocksEnumerated(t *testing.T) {
 	cat := signedCatalogue()
 	unit := 0
 	classes := map[string]int{}
+	preSib, noRecv0 := 0, signedNoRecvSiblings.Load()
 	for ci, cfg := range signedConfigs() {
 		for i, ops := range cat {
 			if cfg.nVal == 1 && strings.Contains(ops, "sib=") {
@@ -992,7 +1112,11 @@ func TestSignedBlocksEnumerated(t *testing.T) {
 					// quick tier: the complete catalogue on the first two configurations, the entries around the BFT bookkeeping
 					// (maxHeightGenerated, impliesMaxPrevotes, genuine aggregate commits, sequences) on the standby configurations;
 					// the path of a downloaded block for a third of the entries on the first configuration
-					core := strings.Contains(ops, "mhg=") || strings.Contains(ops, "imp=") || strings.Contains(ops, "agg=valid") || strings.Contains(ops, "|") || strings.Contains(ops, "sib=")
+					core := strings.Contains(ops, "mhg=") || strings.Contains(ops, "imp=") || strings.Contains(ops, "agg=valid") || strings.Contains(ops, "|") || strings.Contains(ops, "sib=") ||
+						strings.Contains(ops, "pre=")
+					if cfg.hist <= 1 && !strings.Contains(ops, "pre=") {
+						continue
+					}
 					if (ci >= 2 && !core) || (path == 1 && (ci != 0 || i%3 != 0) && !strings.Contains(ops, "height=") && !strings.Contains(ops, "prev=")) {
 						continue
 					}
@@ -1002,6 +1126,9 @@ func TestSignedBlocksEnumerated(t *testing.T) {
 					continue
 				}
 				cfg.path = path
+				if path == 0 && strings.Contains(ops, "pre=") && strings.Contains(ops, "sib=") {
+					preSib++
+				}
 				r := exec(t, signedCase(cfg, ops, genOfOps(ops)), true)
 				classes[r.out.class]++
 				if os.Getenv("VERIF_C09_SIGNED_TRACE") != "" {
@@ -1015,6 +1142,10 @@ func TestSignedBlocksEnumerated(t *testing.T) {
 	}
 	if classes["accepted"] < 10 || len(classes) < 8 {
 		t.Errorf("generator starvation: outcome classes %v", classes)
+	}
+	// (a shard of the thorough tier may hold only the entries of one path: the guard counts what this shard executed)
+	if k := signedNoRecvSiblings.Load() - noRecv0; preSib >= 16 && k < int64(preSib/4) {
+		t.Errorf("generator starvation: %d node-state cases with a sibling went to Executer.process, but only %d siblings reached fork choice on a node without a reception time on record (restarted / synced only / just started)", preSib, k)
 	}
 	t.Logf("outcome classes: %v", classes)
 }
@@ -1044,7 +1175,16 @@ func TestSignedBlocksRandom(t *testing.T) {
 				k = 0
 			}
 			var ops []string
-			if k > 0 && rapid.IntRange(0, 7).Draw(t, "sibling") == 0 {
+			// a quarter of the blocks meet a node in a drawn reception state: (re)started, synced only, received in order just now
+			sibShare := 7
+			if rapid.IntRange(0, 3).Draw(t, "nodeState") == 0 {
+				ops = append(ops, drawSignedPre(t)...)
+				sibShare = 1 // half of them are siblings of the tip: fork choice reads the reception time only for those
+				if k == 0 {
+					k = rapid.IntRange(0, 1).Draw(t, "opsAfterState")
+				}
+			}
+			if (k > 0 || len(ops) > 0) && rapid.IntRange(0, sibShare).Draw(t, "sibling") == 0 {
 				ops = append(ops, fmt.Sprintf("sib=%d", rapid.IntRange(1, 3).Draw(t, "sibSalt")))
 			}
 			for i := 0; i < k; i++ {
@@ -1056,6 +1196,26 @@ func TestSignedBlocksRandom(t *testing.T) {
 		c := signedCase(cfg, ops, ifs(nseg > 1, "rnd-signed-sequence", "rnd-signed-block"))
 		exec(t, c, false)
 	})
+}
+
+// drawSignedPre: the node-state operations in front of a block (see signedPre).
+func drawSignedPre(t *rapid.T) []string {
+	k := func(label string) int { return rapid.SampledFrom([]int{1, 1, 2, 3}).Draw(t, label) }
+	switch rapid.IntRange(0, 7).Draw(t, "preKind") {
+	case 0:
+		return []string{"pre=asis"}
+	case 1, 2:
+		return []string{"pre=restart"}
+	case 3:
+		return []string{fmt.Sprintf("pre=sync:%d", k("synced"))}
+	case 4:
+		return []string{fmt.Sprintf("pre=recv:%d", k("received")), "pre=restart"}
+	case 5:
+		return []string{fmt.Sprintf("pre=recv:%d", k("received"))}
+	case 6:
+		return []string{fmt.Sprintf("pre=recv:%d", k("received")), fmt.Sprintf("pre=sync:%d", k("synced"))}
+	}
+	return []string{"pre=restart", fmt.Sprintf("pre=sync:%d", k("synced"))}
 }
 
 func drawU32Expr(t *rapid.T) string {
